@@ -1,9 +1,10 @@
 #!/bin/bash
 # copies the behaviour-preserving changes and their evaluation summaries to /verif/benign/
 cd "$(dirname "$0")/.."
+# B13 and B14 were written in this session (kept by hand); ben3 is B15..B20
 i=0
-for wt in ben1 ben2; do for k in 1 2 3 4 5 6; do
-  i=$((i+1)); id=$(printf "B%02d" $i); d=benign/$id; mkdir -p $d
+for wt in ben1 ben2 ben3; do for k in 1 2 3 4 5 6; do
+  i=$((i+1)); [ $i -eq 13 ] && i=15; id=$(printf "B%02d" $i); d=benign/$id; mkdir -p $d
   cp /tmp/wt/$wt/out/$k/patch.diff /tmp/wt/$wt/out/$k/notes.md $d/ 2>/dev/null
   python3 - "$id" "$wt-$k" "$d" <<'PY'
 import json,re,sys
